@@ -68,6 +68,11 @@ claimed = {
   note="TSDBStore and meta client are stubs; the write-time cut-off is checked by C08",
   technique=SIM + ": testing/synctest fake clock driving the real service loop, expiry predicate restated in the harness, injected errors",
   ref="3 C17"),
+ "C18": dict(
+  text="A source store built by a seeded history (cache, files, tombstones, un-snapshotted cache) is backed up in full on the still open store (one run in three with an acknowledged write parked inside the backup's own cache snapshot), the stream restored with RestoreShard into a fresh store - the path a shard copy takes - and compared through both read paths, also after a restart of the destination; the source must be unchanged; 0-6 cuts of the stream (tar block boundaries, before the trailer, random offsets) are offered to RestoreShard and must not yield a 'successful' incomplete shard; a time-bounded export/import is compared with the model restricted to the range.",
+  note="the network between source and destination is a buffer cut at seeded offsets; coordinator.Service's CopyShard RPC and the meta handler adding the owner are not run; incremental (since) backups are not explored (file mtimes are real time, the simulation clock is fake); truncated-stream acceptance and the broken time-bounded export are listed known findings",
+  technique=SIM + ": seeded source histories, window-level yield inside the backup's snapshot, stream-cut fault injection, LWW model comparison",
+  ref="3 C18"),
 }
 
 NA = {
